@@ -280,7 +280,7 @@ def piece_meshfields(G, piece, dim=3):
     conn = []
     for t in piece["types"]:
         rows = [[loc[p] for p in G["cells"][c][1]] for c in piece["cells"] if G["cells"][c][0] == t]
-        conn.append((CellType(t), np.array(rows, dtype=np.int64)))
+        conn.append((CellType(t), np.array(rows, dtype=piece.get("conn_dtype", "int64"))))
     pd = {n: np_rows(vt, nc, sc, [rows[g] for g in piece["points"]]) for n, vt, nc, sc, rows in G["pf"]
           if n not in piece.get("drop_pf", ())}
     cd = {n: [np_rows(vt, nc, sc, [rows[c] for c in piece["cells"] if G["cells"][c][0] == t]) for t in piece["types"]]
@@ -312,7 +312,10 @@ def extract(fields, G):
     dom = fields.domain
     res = {"points": _scaled(dom.points, SCALE), "cells": [], "pf": {}, "cf": {}}
     for ct in dom.cell_types:
-        res["cells"].append([ct.id, [[int(x) for x in row] for row in dom.connectivity(ct)]])       # rows may be ragged (polygons)
+        conn_ = dom.connectivity(ct)
+        if getattr(conn_, "dtype", None) is not None and conn_.dtype.kind == "f":
+            res["float_connectivity"] = True          # corner indices must stay integers
+        res["cells"].append([ct.id, [[int(x) for x in row] for row in conn_]])       # rows may be ragged (polygons)
     for f in fields.point_fields:
         res["pf"][f.name] = {"dtype": np.asarray(f.values).dtype.name, "rows": _scaled(f.values, psc.get(f.name, 1))}
     for f, ct in fields.cell_fields_types:
@@ -328,9 +331,22 @@ def run_merge(G, part, dim=3):
     try:
         with warnings.catch_warnings():
             warnings.simplefilter("ignore")
-            return extract(merge(*pieces), G)
+            res = extract(merge(*pieces), G)
     except Exception as e:          # noqa: BLE001
         return {"error": f"{type(e).__name__}: {e}"}
+    if len(pieces) >= 2 and not any(p.get("drop_pf") for p in part["pieces"]):
+        # the piece objects that already went through one merge, merged again in the opposite order, must give what fresh
+        # piece objects give in that order (merge must not leave anything behind in the pieces)
+        try:
+            with warnings.catch_warnings():
+                warnings.simplefilter("ignore")
+                again = extract(merge(*pieces[::-1]), G)
+                fresh = extract(merge(*[piece_meshfields(G, p, dim) for p in part["pieces"]][::-1]), G)
+            if again != fresh:
+                res["reuse"] = "pieces that already went through a merge give a different result than fresh pieces (reverse order)"
+        except Exception as e:          # noqa: BLE001
+            res["reuse"] = f"merging the same piece objects again (reverse order) raised {type(e).__name__}: {e}"
+    return res
 
 
 # ================================================================================================
@@ -490,12 +506,37 @@ def judge_merge(ctx, case, im):
     return diff is None
 
 
+def long_line(rng):
+    """a polyline with more points than a narrow integer type can index, cut into 2-3 contiguous pieces that are small
+    enough for their own (piece-local) connectivity to be stored in such a type"""
+    n = rng.randint(130, 280)
+    pts = [[i * 8, (i % 3) * 8, 0] for i in range(n + 1)]
+    cells = [[3, [i, i + 1]] for i in range(n)]
+    G = {"kind": "longline", "points": pts, "cells": cells, "pf": [_field(rng, "u", n + 1)], "cf": [_field(rng, "c", n)]}
+    k = rng.choice([2, 3])
+    cuts = sorted(rng.sample(range(40, n - 40), k - 1))
+    groups = [list(range(a, b)) for a, b in zip([0] + cuts, cuts + [n])]
+    rng.shuffle(groups)
+    pieces = []
+    for g in groups:
+        lp = sorted({p for c in g for p in G["cells"][c][1]})
+        fit = [dt for dt, mx in (("int8", 127), ("uint8", 255), ("int16", 32767), ("uint16", 65535), ("int32", 2 ** 31 - 1)) if len(lp) - 1 <= mx]
+        pieces.append({"cells": g, "points": lp, "types": [3], "conn_dtype": fit[0] if rng.random() < 0.7 else rng.choice(fit[:3])})
+    return G, {"mode": "contiguous", "pieces": pieces}
+
+
 def stream_merge(ctx, n):
     rng = ctx.rng
     cases = []
+    for _ in range(max(4, n // 150)):
+        G, part = long_line(rng)
+        cases.append((G, part, 3))
     for _ in range(n):
         G = gen_global(rng)
         part = gen_partition(rng, G)
+        if rng.random() < 0.3:
+            for piece in part["pieces"]:
+                piece["conn_dtype"] = rng.choice(["int8", "uint8", "int16", "int32", "uint32", "int64"])
         dim = 3 if (G["kind"] in ("hex", "tet") or rng.random() < 0.7) else 2
         if dim == 2 and len({tuple(p[:2]) for p in G["points"]}) != len(G["points"]):
             dim = 3
@@ -516,6 +557,11 @@ def stream_merge(ctx, n):
         ctx.count(f"merge:space-dim={dim}")
         mo = decode_model(val, G)
         judge_merge(ctx, case, im)
+        if im.get("reuse"):
+            ctx.violation("E4", "merge(): " + im["reuse"], case, impl=im)
+        if im.get("float_connectivity"):
+            ctx.violation("E4", "merge(): the corner indices of the merged mesh are floating-point numbers", case, impl=im)
+        ctx.tie("T2 merge() of piece objects that already went through a merge")
         d2 = model_vs_impl(mo, im)
         if d2 is not None:
             ctx.violation("E2", f"merge(): model != implementation ({d2})", case, found_input=False, impl=im, model=mo)
